@@ -56,7 +56,7 @@ var vfC15Scenarios = []string{
 	"genuine", "challenge-dropped", "response-late", "response-from-third-address", "forged-response-wrong-cookie",
 	"forged-response-guess-before-challenge", "replayed-record-from-new-address", "stale-record-from-new-address",
 	"garbage-from-new-address", "two-candidates-one-answers", "genuine-then-back", "observed-writes-during-validation",
-	"altered-cid", "many-small-records-from-new-address",
+	"altered-cid", "many-small-records-from-new-address", "response-late-with-keepalives",
 }
 
 // vfInstallRRCStrip removes the return_routability_check extension from the ClientHellos generated for key.
@@ -103,24 +103,26 @@ type vfC15World struct {
 	obsAddr string
 	home    string // mover's original address
 
-	mu        sync.Mutex
-	moverOut  []*vfC15Dgram            // held datagrams of the mover, in emission order
-	recv      map[string]int           // bytes delivered to O per source address
-	sent      map[string]int           // bytes O emitted per destination while that destination was not its RemoteAddr
-	fresh     map[string]bool          // a fresh genuine record was delivered from this address
-	eligible  map[string]bool          // a post-challenge mover datagram was delivered from this address in time
-	chalAt    map[string]time.Duration // when O's oldest undelivered/unanswered datagram towards the address was emitted
-	chalSeen  map[string]time.Duration // emission time of the datagram for address X that the mover has received
-	toMover   []*vfWire                // O's emissions (for the scenario to forward or drop)
-	forwardTo bool                     // forward O's datagrams to the mover
-	switched  []string
-	lastAddr  string
-	cidLenObs int
-	cidLenMov int
+	mu           sync.Mutex
+	moverOut     []*vfC15Dgram            // held datagrams of the mover, in emission order
+	recv         map[string]int           // bytes delivered to O per source address
+	sent         map[string]int           // bytes O emitted per destination while that destination was not its RemoteAddr
+	fresh        map[string]bool          // a fresh genuine record was delivered from this address
+	eligible     map[string]bool          // a post-challenge mover datagram was delivered from this address in time
+	chalAt       map[string]time.Duration // when O's oldest undelivered/unanswered datagram towards the address was emitted
+	chalSeen     map[string]time.Duration // emission time of the datagram for address X that the mover has received
+	toMover      []*vfWire                // O's emissions (for the scenario to forward or drop)
+	forwardTo    bool                     // forward O's datagrams to the mover
+	switched     []string
+	lastAddr     string
+	cidLenObs    int
+	cidLenMov    int
+	moverWriting bool // the harness is inside a Write on the mover
 }
 
 type vfC15Dgram struct {
 	Data          []byte
+	Reaction      bool                     // emitted by the mover on its own (while the harness was not writing on it): an answer to something
 	PostChallenge map[string]time.Duration // X -> emission time of the O->X datagram the mover had received before producing this
 	Delivered     int
 }
@@ -137,7 +139,7 @@ func (w *vfC15World) deliver(d *vfC15Dgram, src string, genuineFresh bool) {
 		w.fresh[src] = true
 	}
 	for x, at := range d.PostChallenge {
-		if x == src && w.n.Now()-at < time.Second {
+		if d.Reaction && x == src && w.n.Now()-at < time.Second {
 			w.eligible[src] = true
 		}
 	}
@@ -186,7 +188,7 @@ func (w *vfC15World) onSend(n *vfNet, e *vfWire) {
 	w.mu.Lock()
 	defer w.mu.Unlock()
 	if e.From == w.mov.Name {
-		d := &vfC15Dgram{Data: e.Data, PostChallenge: map[string]time.Duration{}}
+		d := &vfC15Dgram{Data: e.Data, PostChallenge: map[string]time.Duration{}, Reaction: !w.moverWriting}
 		for x, at := range w.chalSeen {
 			d.PostChallenge[x] = at
 		}
@@ -318,10 +320,18 @@ func vfC15Run(t *testing.T, res *vfResult, c vfC15Case) {
 	write := func(side *vfSide, tag string) []byte {
 		seq++
 		pl := []byte(fmt.Sprintf("c15-%s-%d-%s-%d", side.Name, c.Idx, tag, seq))
+		if side == w.mov {
+			w.mu.Lock()
+			w.moverWriting = true
+			w.mu.Unlock()
+		}
 		if _, err := side.Conn.Write(pl); err != nil {
 			res.Count("write_errors", 1)
 		}
 		synctest.Wait()
+		w.mu.Lock()
+		w.moverWriting = false
+		w.mu.Unlock()
 
 		return pl
 	}
@@ -431,6 +441,32 @@ func vfC15Run(t *testing.T, res *vfResult, c vfC15Case) {
 		}
 		time.Sleep(1500 * time.Millisecond)
 		drain(vfAddrB) // the answer arrives after the validation window
+		time.Sleep(2 * time.Second)
+		synctest.Wait()
+		w.check("after settle")
+	case "response-late-with-keepalives":
+		// the candidate address keeps sending authentic records while its answer to the challenge is late:
+		// the traffic must not extend the validation window of the outstanding challenge
+		write(w.mov, "fromB")
+		if d := take(); d != nil {
+			w.deliver(d, vfAddrB, true) // O challenges B; the mover's answer is withheld
+		}
+		w.mu.Lock()
+		w.forwardTo = false // later challenges never reach the mover: the withheld answer stays the only one
+		w.mu.Unlock()
+		stale := pending()
+		for _, d := range stale {
+			d.Delivered++
+		}
+		for i := 0; i < 5; i++ {
+			time.Sleep(300 * time.Millisecond)
+			write(w.mov, "keepalive")
+			drain(vfAddrB)
+		}
+		for _, d := range stale { // 1.5 s after the challenge it answers
+			d.Delivered = 0
+			w.deliver(d, vfAddrB, true)
+		}
 		time.Sleep(2 * time.Second)
 		synctest.Wait()
 		w.check("after settle")
@@ -654,7 +690,7 @@ func TestVF_C15(t *testing.T) {
 		"with and without return-routability negotiation, observing either endpoint; byte budget, RemoteAddr() and destination of every emission "+
 		"checked after every step; plus a real listener on loopback UDP whose clients re-send from fresh sockets. Distinct = scenario instances")
 	res.Assume("bytes received from an address = all datagram bytes the harness delivered from it (the library counts authenticated bytes only, which is less)",
-		"a datagram the peer produced after receiving a challenge counts as a possible response (the response itself is encrypted)")
+		"a datagram the peer emitted on its own (not while the harness was writing on it) after receiving a challenge counts as the response (the response itself is encrypted)")
 	if vfEnv().Replay != "" {
 		var rf struct {
 			Replay struct {
@@ -736,6 +772,22 @@ func (s *vfSwapConn) Rebind() error {
 	go s.pump(pc)
 
 	return nil
+}
+
+// SendVia lets f send through another client's current socket (a rebinding that lands on an address
+// the listener already knows as somebody else's).
+func (s *vfSwapConn) SendVia(other *vfSwapConn, f func()) {
+	other.mu.Lock()
+	borrowed := other.cur
+	other.mu.Unlock()
+	s.mu.Lock()
+	own := s.cur
+	s.cur = borrowed
+	s.mu.Unlock()
+	f()
+	s.mu.Lock()
+	s.cur = own
+	s.mu.Unlock()
 }
 
 func (s *vfSwapConn) ReadFrom(b []byte) (int, net.Addr, error) {
@@ -879,13 +931,21 @@ func vfC15Listener(t *testing.T, res *vfResult, rounds int) {
 		if !okAll || len(owner) < clients {
 			res.Count("listener_rounds_incomplete", 1)
 		} else {
-			for hop := 0; hop < 3; hop++ {
+			for hop := 0; hop < 4; hop++ {
 				for i, cc := range conns {
-					if err := socks[i].Rebind(); err != nil {
-						continue
-					}
 					pl := []byte(fmt.Sprintf("moved-%d-%d-%d", round, i, hop))
-					if _, err := cc.Write(pl); err != nil {
+					var werr error
+					if hop == 0 {
+						// first hop, before anybody migrated: the datagram leaves from the socket the next client
+						// handshook from, an address the listener still has in its table as that client's
+						socks[i].SendVia(socks[(i+1)%len(socks)], func() { _, werr = cc.Write(pl) })
+					} else {
+						if err := socks[i].Rebind(); err != nil {
+							continue
+						}
+						_, werr = cc.Write(pl)
+					}
+					if werr != nil {
 						res.Count("listener_write_errors", 1)
 
 						continue
